@@ -1,5 +1,6 @@
 import itertools
 from dataclasses import dataclass, field
+from numbers import Number
 from typing import List
 
 from sympy import Mul, Add, Symbol, RealNumber
@@ -28,7 +29,7 @@ class Polynomial:
             self.args = coeff.args
         elif isinstance(coeff, (list, tuple)):
             self.args = coeff
-        elif isinstance(coeff, (int, float)):
+        elif isinstance(coeff, Number):
             self.args = [[coeff]]
         elif isinstance(coeff, str):
             self.args = [[1, coeff]] if coeff[0] != "-" else [[-1, coeff[1:]]]
@@ -168,7 +169,7 @@ class RationalPolynomial:
         if isinstance(numer, self.__class__):
             numer = numer.numer
             denom = numer.denom
-        elif isinstance(numer, (list, tuple, int, float)):
+        elif isinstance(numer, (list, tuple, Number)):
             numer = Polynomial(numer)
         if denom is None:
             denom = Polynomial([[1]])
